@@ -18,6 +18,7 @@ import (
 	"google.golang.org/protobuf/types/known/timestamppb"
 
 	"github.com/smart-core-os/sc-golang/pkg/resource"
+	"github.com/smart-core-os/sc-golang/pkg/trait/electricpb"
 	"github.com/smart-core-os/sc-golang/pkg/trait/hailpb"
 	"github.com/smart-core-os/sc-golang/pkg/wrap"
 	"github.com/smart-core-os/sc-golang/verif_h/reg"
@@ -187,12 +188,102 @@ func bareUpdates(s *hx.Seq) {
 	s.Note("%d unary RPCs called with a request that names the device and nothing else", n)
 }
 
+// electricActiveModeBody: the electric device's active mode is a register too, but one whose writes name a MODE that
+// has to exist (the generic histories can only offer made-up ids, which are refused): modes eco and boost are
+// configured, then the active mode is set, set to the same mode again, changed, cleared (there is a normal mode) -
+// with a Get after each and one open stream. Every answer is the next Get; an answer that differs from the previous
+// value arrives on the stream, once.
+func electricActiveModeBody(name string, updatesOnly bool) func() {
+	return func() {
+		model := electricpb.NewModel()
+		for _, md := range []*traits.ElectricMode{{Id: "eco", Title: "Eco", Normal: true}, {Id: "boost", Title: "Boost"}} {
+			if err := model.AddMode(md); err != nil {
+				verifrt.Logf("FAIL electric-setup %s ## %v", name, err)
+				return
+			}
+		}
+		inner := wrap.ServerToClient(traits.ElectricApi_ServiceDesc, electricpb.NewModelServer(model))
+		r := electricpb.NewApiRouter()
+		r.Add(devName, traits.NewElectricApiClient(inner))
+		c := traits.NewElectricApiClient(wrap.ServerToClient(traits.ElectricApi_ServiceDesc, r))
+		ctx, cancel := context.WithCancel(context.Background())
+		defer cancel()
+		bg := context.Background()
+		var got []*traits.ElectricMode
+		stream, err := c.PullActiveMode(ctx, &traits.PullActiveModeRequest{Name: devName, UpdatesOnly: updatesOnly})
+		if err != nil {
+			verifrt.Logf("FAIL electric-pull-open %s ## %v", name, err)
+			return
+		}
+		go func() {
+			for {
+				m, err := stream.Recv()
+				if err != nil {
+					return
+				}
+				for _, ch := range m.Changes {
+					got = append(got, ch.ActiveMode)
+				}
+			}
+		}()
+		verifrt.WaitIdle()
+		get := func() *traits.ElectricMode {
+			m, err := c.GetActiveMode(bg, &traits.GetActiveModeRequest{Name: devName})
+			if err != nil {
+				verifrt.Logf("FAIL electric-get %s ## %v", name, err)
+				return &traits.ElectricMode{}
+			}
+			return m
+		}
+		cur := get()
+		got = nil
+		step := func(label string, call func() (*traits.ElectricMode, error)) {
+			resp, err := call()
+			verifrt.WaitIdle()
+			if err != nil {
+				verifrt.Logf("FAIL electric-update %s ## %s: %v", name, label, err)
+				return
+			}
+			after := get()
+			if !proto.Equal(resp, after) {
+				verifrt.Logf("FAIL electric-update-response-not-get %s ## %s answered %v, the next Get returns %v", name, label, resp, after)
+			}
+			if !proto.Equal(after, cur) {
+				if len(got) != 1 || !proto.Equal(got[0], after) {
+					verifrt.Logf("FAIL electric-update-not-on-stream %s ## %s changed the active mode from %v to %v, the open stream received %v", name, label, cur, after, got)
+				}
+			} else if len(got) > 1 {
+				verifrt.Logf("FAIL electric-unchanged-emitted %s ## %s left the active mode as it was, the stream received %v", name, label, got)
+			}
+			got, cur = nil, after
+		}
+		upd := func(id string) func() (*traits.ElectricMode, error) {
+			return func() (*traits.ElectricMode, error) {
+				return c.UpdateActiveMode(bg, &traits.UpdateActiveModeRequest{Name: devName, ActiveMode: &traits.ElectricMode{Id: id}})
+			}
+		}
+		step("UpdateActiveMode(boost)", upd("boost"))
+		step("UpdateActiveMode(boost) again", upd("boost"))
+		step("UpdateActiveMode(eco)", upd("eco"))
+		step("UpdateActiveMode(boost)", upd("boost"))
+		step("ClearActiveMode", func() (*traits.ElectricMode, error) {
+			return c.ClearActiveMode(bg, &traits.ClearActiveModeRequest{Name: devName})
+		})
+		step("ClearActiveMode again", func() (*traits.ElectricMode, error) {
+			return c.ClearActiveMode(bg, &traits.ClearActiveModeRequest{Name: devName})
+		})
+		cancel()
+		verifrt.WaitIdle()
+		verifrt.Logf("OUT final=%v", cur)
+	}
+}
+
 // One execution each, under the default schedule with exact quiescence between the client's steps (the
 // scenario is a sequential history; the schedules of one Update against an opening Pull are concurrent.go's).
 func registerItems(h *hx.H) {
 	h.Seq("servers/update-without-resource", bareUpdates)
 	h.Seq("items", func(s *hx.Seq) {
-		var rp struct{ UpdatesOnly, Streams bool }
+		var rp struct{ UpdatesOnly, Streams, Electric bool }
 		run := func(uo bool) {
 			name := fmt.Sprintf("items/hail/get-update-pull by id/updates_only=%v", uo)
 			res := verifrt.RunOnce(nil, false, hailItemBody(name, uo))
@@ -208,6 +299,23 @@ func registerItems(h *hx.H) {
 			}
 			if res.Status != "ok" {
 				s.Fail(res.Status+" "+name, res.Msg, map[string]any{"UpdatesOnly": uo})
+			}
+		}
+		runElectric := func(uo bool) {
+			name := fmt.Sprintf("items/electric/active mode set, set again, changed, cleared/updates_only=%v", uo)
+			res := verifrt.RunOnce(nil, false, electricActiveModeBody(name, uo))
+			s.Eval(1)
+			s.Trans(6)
+			s.State(name)
+			s.Distinct(name)
+			for _, l := range res.Log {
+				if strings.HasPrefix(l, "FAIL ") {
+					k, m, _ := strings.Cut(strings.TrimPrefix(l, "FAIL "), " ## ")
+					s.Fail(k, m, map[string]any{"UpdatesOnly": uo, "Electric": true})
+				}
+			}
+			if res.Status != "ok" {
+				s.Fail(res.Status+" "+name, res.Msg, map[string]any{"UpdatesOnly": uo, "Electric": true})
 			}
 		}
 		runStreams := func(uo bool) {
@@ -228,7 +336,9 @@ func registerItems(h *hx.H) {
 			}
 		}
 		if s.Replaying(&rp) {
-			if rp.Streams {
+			if rp.Electric {
+				runElectric(rp.UpdatesOnly)
+			} else if rp.Streams {
 				runStreams(rp.UpdatesOnly)
 			} else {
 				run(rp.UpdatesOnly)
@@ -242,6 +352,8 @@ func registerItems(h *hx.H) {
 		run(true)
 		runStreams(false)
 		runStreams(true)
+		runElectric(false)
+		runElectric(true)
 		s.Sample(map[string]any{"history": "PullHail(h1) ; UpdateHail(state=DEPARTED, mask state) ; UpdateHail(mask no_such_field) ; UpdateHail(state=ARRIVED) ; UpdateHail(mask no_such_field), a Get after each", "meaning": "the hail h1 (arrived long ago) behind wrapper -> router -> wrapper is one register: responses equal the next Get, accepted updates appear on the open stream once, rejected ones change nothing"})
 	})
 }
